@@ -137,8 +137,16 @@ def main(argv=None):
     # inconclusive conditions
     inconclusive = list(problems) + tot['inconclusive']
     if tot['harness_errors']:
-        inconclusive.append(f"{len(tot['harness_errors'])} harness error(s): "
-                            + tot['harness_errors'][0]['trace'][-600:])
+        nerr = len(tot['harness_errors'])
+        msg = (f"{nerr} case(s) could not be judged because the harness "
+               "itself raised: " + tot['harness_errors'][0]['trace'][-600:])
+        if nerr > max(2, 0.02 * (tot['evaluations'] + nerr)):
+            inconclusive.append(msg)
+        else:
+            # a handful of unjudged cases does not invalidate the others;
+            # they are reported, never counted as held
+            print('WARNING ' + msg)
+            tot['skipped']['harness-error'] += nerr
     unreached = []
     for name in getattr(mod, 'REQUIRED_REACH', []):
         if not any(key.endswith(name) and cnt > 0
